@@ -23,6 +23,7 @@ package loglimiter
 //@   allocates
 //@   ghost_exit result.gTime = time.tval(result.previousTime)
 //@   ensures [C20] fresh(result) && result.interval == interval && result.nowFunc != nil && result.inv() && result.gPrinted == 0
+//@   ensures [C20] result.nowFunc == funcval("time.Now")
 
 //@ func (limiter *LogLimiter) Print
 //@   requires limiter != nil && limiter.nowFunc != nil && limiter.inv()
